@@ -24,11 +24,34 @@
                                 or the two internal conditions `fuel` / null counterfactual graph
     * `idstar_error_taxonomy_wf`, `idstar_nonempty_graph`
                                 for a well-formed event dict the null-graph condition is excluded too: estimand, Zero,
-                                'unidentifiable' or `fuel` (see OPEN `idstar_terminates`), nothing else
+                                'unidentifiable' or `fuel` (the latter excluded by `idstar_terminates`), nothing else
     * `idstar_fuel_mono`        more fuel never changes an answer that was reached
+    * `idstar_terminates`       TERMINATION: for every well-formed graph without self-loop edges and every well-formed event
+                                (`GoodEv`: a dict whose keys are variables of the graph with consistent subscript sets),
+                                `2·|V| + 3` units of fuel are never exhausted, for every iteration order of the worlds and of
+                                the district nodes; `idstar_never_out_of_fuel` (the model's own bound `2|V| + |event| + 4`),
+                                `idstar_outcomes`: on an acyclic graph the outcome is an estimand / Zero or `unidentifiable`,
+                                NOTHING else (no fuel clause).  Measure (Lemmas/CfTermA–C): every event line 6 recurses on is a
+                                "district event" (all keys in one world, key names closed under parents up to that world's
+                                names: `sw_of_district`); on a district event the non-self-intervened part of the
+                                counterfactual graph has at most one node per key name (`sw_structure`), so every further
+                                district event has strictly fewer keys (`district_smaller`); line 3 never adds keys and fires
+                                at most once per level.
+    * `idstar_depth_sw`         on a district event with k keys, `2k + 1` units suffice
+    * `idstar_sound_fragment`   SOUNDNESS ON A NAMED FRAGMENT (`InFragment`, decidable by `inFragmentB`): events all of whose
+                                keys carry one subscript set, with unstarred values and subscripts — the interventional
+                                queries P(y_x), conjunctions allowed.  For every functional SCM compatible with the graph
+                                (normalised noise, bounded values) the returned expression, under the reading of the property
+                                (`cden`, Lemmas/CfDen.lean), EQUALS P(event); `idstar_answers_fragment`: inside the fragment ID*
+                                always answers (never 'unidentifiable').  Proof (Lemmas/CfProb, CfLocal, CfDen, CfFragA–C): the
+                                noise space is a product measure (independence of events over disjoint coordinates,
+                                marginalisation); the joint distribution of a parent-closed set of variables in one world is
+                                the mass of "local mechanism" events (so the world only matters through what it forces); the
+                                districts of the counterfactual graph share no noise (c-component factorisation, line 6);
+                                line 9 and the outer Sum are marginalisations; induction over the recursion.
     * vocabulary (C06 part): Props/C06Cf.lean
 
-  -- OPEN (stated in full, NOT proved; on the current tree the first one is FALSE — F10, see known_findings.jsonl):
+  -- OPEN (stated in full, NOT proved; on the current tree the first one is FALSE outside the fragment — F10, see known_findings.jsonl):
   --   theorem idstar_sound : idStar ordf dordf G ev = .ok e → e ≠ .zero → M.Compatible G → EventWF M ev → ν.Distinct →
   --       den M ν ev e = probEvent M ν ev
   --     (`den` = the reading of the property: a free outcome variable `V` of a leaf takes the event's value of `V`, a subscript
@@ -37,21 +60,15 @@
   --       probEvent M ν ev = 0
   --     proved for Zero coming from line 2 (`idstar_zero_line2_sound_partial`) and from line 5 (`idstar_zero_line5_sound`, by
   --     C18's `cg_prob`); Zero from a factor of line 6 is open (and false today: F10/M5)
-  --   theorem idstar_terminates : G acyclic → idStar ordf dordf G ev ≠ .error (.internal "fuel")
-  --     proved: the line-3 recursion (at most once, strictly smaller event); the line-6 recursion on the original graph
-  --     is only shown to be well defined for every fuel and monotone in the fuel; that `2|V| + |event| + 4` always
-  --     suffices is checked on every generated input by the correspondence (the model would answer `internal fuel`).
-  --     Proof plan (not mechanised): a line-6 event E_D has all keys in ONE world P (the pillow) and is parent-closed:
-  --     pa_G(bases D) ⊆ bases D ∪ names P, because every parent of a district node is in the district or in its pillow.  In the
-  --     recursive call the non-self-intervened nodes of the counterfactual graph are then single copies of variables in
-  --     bases D \ names P (a factual copy enters only by merging, which needs un-intervened ancestors), so a further split into
-  --     ≥ 2 districts yields events with strictly fewer keys: the measure |keys| decreases from the second level on.
-  --     Observed depth on 6 000 random inputs with ≤ 5 nodes: ≤ 3.
 -/
 import Y0.Model.IdStar
 import Y0.Lemmas.CfFscm
 import Y0.Lemmas.CfIdStar
 import Y0.Lemmas.CfNsi
+import Y0.Lemmas.CfTermC
+import Y0.Lemmas.CfFragC
+import Mathlib.Tactic.NormNum
+import Mathlib.Algebra.Order.Field.Rat
 
 namespace Y0.Cf
 open Fscm
@@ -201,12 +218,144 @@ example : GoodOrder id := fun vs => extractInterventions_ok vs
 /-- **Zero from line 5 is sound** (by C18's `cg_prob`): when `make_counterfactual_graph` reports 'inconsistent' the event has
 probability 0 in every functional SCM compatible with the graph (hypotheses as in `cg_prob`) -/
 theorem idstar_zero_line5_sound (M : Model) (ν : BaseValues) (hν : ν.Distinct) (hM : Compatible M G) (hG : G.WF)
-    (hdl : ∀ e ∈ G.di, e.1 ≠ e.2) (hbl : ∀ e ∈ G.bi, e.1 ≠ e.2) (ev : Event) (hev : EvOK ev) (topo : List Name)
-    (htopo : G.topologicalSort = .ok topo) (hpf : ∀ v, ∀ p ∈ M.pa v, Before topo v p)
+    (hdl : ∀ e ∈ G.di, e.1 ≠ e.2) (hbl : ∀ e ∈ G.bi, e.1 ≠ e.2) (ev : Event) (hev : EvOK ev)
     (hws : (ordf (extractInterventions ev.keys)).Nodup) (hwne : ∀ w ∈ ordf (extractInterventions ev.keys), w ≠ [])
     (hwcs : ∀ w ∈ ordf (extractInterventions ev.keys), ConsistentSubs w) (g : MG Var)
     (h : makeCounterfactualGraph ordf G ev = .ok (g, none)) : probEvent M ν ev = 0 :=
-  (cg_prob M ν hν G hM hG hdl hbl ordf ev hev topo htopo hpf hws hwne hwcs).2 g h
+  (cg_prob M ν hν G hM hG hdl hbl ordf ev hev hws hwne hwcs).2 g h
+
+/-! ## 3b. termination -/
+
+/-- **ID\* terminates** (the fuel of the model is never exhausted).  For every well-formed graph without self-loop edges, every
+well-formed event (`GoodEv G ev`: no repeated key, values named after their variables, every key `Variable(n)` or
+`CounterfactualVariable(n, S)` with `n` a node of `G` and `S` a consistent subscript set), every iteration order of the worlds
+(`PermOrder`) and of the district nodes (`SubsetOrder`): every fuel `≥ 2·|V| + 3` gives an outcome other than `internal fuel`. -/
+theorem idstar_terminates {ordf : List World → List World} (hord : PermOrder ordf) {dordf : List Var → List Var}
+    (hdo : SubsetOrder dordf) (hG : G.WF) (hdl : ∀ e ∈ G.di, e.1 ≠ e.2) (hbl : ∀ e ∈ G.bi, e.1 ≠ e.2)
+    (ev : Event) (hev : GoodEv G ev) :
+    ∃ n, n = 2 * G.nodes.length + 3 ∧ ∀ fuel, n ≤ fuel → idStarFuel ordf dordf G fuel ev ≠ .error (.internal "fuel") :=
+  ⟨_, rfl, fun fuel hf => idStarFuel_terminates hord hdo hG hdl hbl ev hev fuel hf⟩
+
+/-- … in particular the bound the model itself uses is enough -/
+theorem idstar_never_out_of_fuel {ordf : List World → List World} (hord : PermOrder ordf) {dordf : List Var → List Var}
+    (hdo : SubsetOrder dordf) (hG : G.WF) (hdl : ∀ e ∈ G.di, e.1 ≠ e.2) (hbl : ∀ e ∈ G.bi, e.1 ≠ e.2)
+    (ev : Event) (hev : GoodEv G ev) : idStar ordf dordf G ev ≠ .error (.internal "fuel") := by
+  unfold idStar idStarFuelBound
+  exact idStarFuel_terminates hord hdo hG hdl hbl ev hev _ (by omega)
+
+/-- on a district event (what line 6 recurses on) with at most `k` keys, `2k + 1` units of fuel suffice -/
+theorem idstar_depth_sw {ordf : List World → List World} (hord : PermOrder ordf) {dordf : List Var → List Var}
+    (hdo : SubsetOrder dordf) (hG : G.WF) (hdl : ∀ e ∈ G.di, e.1 ≠ e.2) (hbl : ∀ e ∈ G.bi, e.1 ≠ e.2)
+    (topo : List Name) (ht : G.topologicalSort = .ok topo) (k : Nat) (ev : Event) (hsw : SW G ev) (hk : ev.length ≤ k)
+    (fuel : Nat) (hf : 2 * k + 1 ≤ fuel) : idStarFuel ordf dordf G fuel ev ≠ .error (.internal "fuel") :=
+  idStarFuel_sw_terminates hord hdo hG hdl hbl topo ht k ev hsw hk fuel hf
+
+/-- **The outcomes of ID\***, without any fuel clause: on an acyclic well-formed graph and a well-formed event, ID* returns an
+expression (an estimand or Zero) or refuses with `unidentifiable` — nothing else. -/
+theorem idstar_outcomes {ordf : List World → List World} (hord : PermOrder ordf) {dordf : List Var → List Var}
+    (hdo : SubsetOrder dordf) (hG : G.WF) (hA : G.Acyclic) (hdl : ∀ e ∈ G.di, e.1 ≠ e.2) (hbl : ∀ e ∈ G.bi, e.1 ≠ e.2)
+    (ev : Event) (hev : GoodEv G ev) :
+    (∃ e, idStar ordf dordf G ev = .ok e) ∨ idStar ordf dordf G ev = .error .unidentifiable := by
+  obtain ⟨topo, ht⟩ := MG.topologicalSort_total G hG hA
+  cases h : idStar ordf dordf G ev with
+  | ok e => exact Or.inl ⟨e, rfl⟩
+  | error e =>
+    right
+    rcases idstar_error_taxonomy_wf G hord.good hdo topo ht ev hev.ok e h with he | he
+    · rw [he]
+    · exact absurd (he ▸ h) (idstar_never_out_of_fuel G hord hdo hG hdl hbl ev hev)
+
+/-- the hypotheses are satisfiable: the orders used by the correspondence check -/
+example (rev : Bool) (rot : Nat) : PermOrder (orderWorlds rev rot) := permOrder_orderWorlds rev rot
+example (rev : Bool) : SubsetOrder (orderDistrict rev) := subsetOrder_orderDistrict rev
+
+/-! ## 3c. soundness on a named fragment -/
+
+/-- **The fragment** `InFragment G ev`: the event is a dict over variables of `G`; all its keys carry ONE subscript set `w`
+(possibly empty: all factual); every value is the UNSTARRED value of its own variable and every subscript is unstarred —
+the interventional queries `P(y_x)` (`x`, `y` the unstarred values), conjunctions allowed.  None of the F10 defect patterns
+(a starred symbol turned into an unstarred subscript, two copies of one variable) can occur inside it. -/
+def InFragment (G : MG Name) (ev : Event) : Prop := ∃ w, Frag G w ev
+
+/-- the fragment is decidable: an executable test -/
+def inFragmentB (G : MG Name) (ev : Event) : Bool :=
+  match ev with
+  | [] => true
+  | p :: _ =>
+    decide (ev.keys.Nodup) &&
+    ev.all (fun q => decide (q.2 = ⟨q.1.name, false⟩) && decide (q.1.star = none) && !q.1.isIv &&
+      decide (q.1.name ∈ G.nodes) && decide (q.1.ivs = p.1.ivs)) &&
+    p.1.ivs.all (fun i => !i.star)
+
+theorem inFragmentB_sound (ev : Event) (h : inFragmentB G ev = true) : InFragment G ev := by
+  cases ev with
+  | nil =>
+    refine ⟨[], ⟨⟨?_, ?_⟩, ?_⟩, ?_, ?_, ?_⟩
+    · simp [Event.keys]
+    · intro p hp; cases hp
+    · intro k hk; simp [Event.keys] at hk
+    · intro p hp; cases hp
+    · intro k hk; simp [Event.keys] at hk
+    · intro i hi; cases hi
+  | cons p ps =>
+    simp only [inFragmentB, Bool.and_eq_true, decide_eq_true_eq, List.all_eq_true, Bool.not_eq_eq_eq_not, Bool.not_true] at h
+    obtain ⟨⟨hnd, hall⟩, hw⟩ := h
+    have hwU : ∀ i ∈ p.1.ivs, i.star = false := hw
+    refine ⟨p.1.ivs, ⟨⟨hnd, ?_⟩, ?_⟩, ?_, ?_, hwU⟩
+    · intro q hq
+      obtain ⟨⟨⟨⟨hv, _⟩, _⟩, _⟩, _⟩ := hall q hq
+      rw [hv]
+    · intro k hk
+      obtain ⟨v, hv⟩ := (mem_keys_iff _ k).1 hk
+      obtain ⟨⟨⟨⟨_, hs⟩, hiv⟩, hin⟩, hivs⟩ := hall (k, v) hv
+      simp only at hs hiv hin hivs
+      exact ⟨hs, hiv, hin, by rw [hivs]; exact consistent_of_unst _ hwU⟩
+    · intro q hq
+      exact (hall q hq).1.1.1.1
+    · intro k hk
+      obtain ⟨v, hv⟩ := (mem_keys_iff _ k).1 hk
+      obtain ⟨⟨⟨⟨_, hs⟩, hiv⟩, _⟩, hivs⟩ := hall (k, v) hv
+      simp only at hs hiv hivs
+      rcases k with ⟨n, s, i, vs⟩
+      simp only at hs hiv hivs
+      subst hs hiv hivs
+      rfl
+
+/-- **ID\* is sound on the fragment.**  Let `M` be any functional SCM compatible with the (well-formed, loop-free) graph `G`,
+with normalised noise, `dom` a bound on the values every mechanism returns, `ν` any base values.  If `ev` is in the fragment and
+`id_star` returns the expression `e`, then `e` — read with the event's own values for its outcome variables (`ν X false`),
+a `Sum` binding the summed variable both as an outcome and in unstarred subscripts — EQUALS the probability of the event in
+`M`.  For every iteration order of the worlds and of the district nodes. -/
+theorem idstar_sound_fragment (M : Model) (ν : BaseValues) (dom : Name → Nat) (hM : Compatible M G) (hnorm : M.Normalised)
+    (hdom : ∀ v ps us, M.f v ps us < dom v) (hG : G.WF) (hdl : ∀ e ∈ G.di, e.1 ≠ e.2) (hbl : ∀ e ∈ G.bi, e.1 ≠ e.2)
+    {ordf : List World → List World} (hord : PermOrder ordf) {dordf : List Var → List Var} (hdo : PermDistrict dordf)
+    (ev : Event) (hfr : InFragment G ev) (e : Expr) (h : idStar ordf dordf G ev = .ok e) :
+    cden M ν dom e (fun n => ν n false) = probEvent M ν ev := by
+  obtain ⟨w, hw⟩ := hfr
+  have := idStarFuel_sound_frag M ν dom hM (fun pmf hp => (hnorm pmf hp).2) hdom hG hdl hbl hord hdo _ w ev e hw h
+    (fun n => ν n false)
+  rw [this]
+  congr 1
+  funext n b
+  cases b <;> rfl
+
+/-- … and inside the fragment ID* always answers (on an acyclic graph): it never refuses and never fails -/
+theorem idstar_answers_fragment (hG : G.WF) (hA : G.Acyclic) (hdl : ∀ e ∈ G.di, e.1 ≠ e.2) (hbl : ∀ e ∈ G.bi, e.1 ≠ e.2)
+    {ordf : List World → List World} (hord : PermOrder ordf) {dordf : List Var → List Var} (hdo : PermDistrict dordf)
+    (ev : Event) (hfr : InFragment G ev) : ∃ e, idStar ordf dordf G ev = .ok e := by
+  obtain ⟨w, hw⟩ := hfr
+  rcases idstar_outcomes G hord hdo.subset hG hA hdl hbl ev hw.good with h | h
+  · exact h
+  · exact absurd h (idStarFuel_not_unid_frag hG hdl hbl hord hdo _ w ev hw)
+
+/-- the orders used by the correspondence check are permutations of the district -/
+theorem permDistrict_orderDistrict (rev : Bool) : PermDistrict (orderDistrict rev) := by
+  intro d
+  unfold orderDistrict
+  simp only
+  split
+  · exact (List.reverse_perm _).trans (perm_sortBy' _ _)
+  · exact perm_sortBy' _ _
 
 /-! ## 4. non-vacuity: concrete runs of the model (kernel-evaluated) -/
 
@@ -232,6 +381,88 @@ example : isUnid (idStar sortWorlds (sortBy Var.keyLt) gBA
 /-- the model reproduces the open finding F10/M1: for `B = b' ∧ A = a` it answers `P(B) · P[B](A)` with the UNSTARRED subscript
 (the harness shows on functional SCMs that this is not `P(B = b', A = a)`) -/
 example : okProd2 (idStar sortWorlds (sortBy Var.keyLt) gBA [(B, ⟨1, true⟩), (A, ⟨0, false⟩)]) [B] [A_b] = true := by decide
+/-- `GoodEv` is satisfiable: the event `A_b = a ∧ B = b` on `B → A` -/
+example : GoodEv gBA [(A_b, ⟨0, false⟩), (B, ⟨1, false⟩)] := by
+  refine ⟨⟨by decide, by decide⟩, ?_⟩
+  intro k hk
+  simp only [Event.keys, List.map_cons, List.map_nil, List.mem_cons, List.not_mem_nil, or_false] at hk
+  rcases hk with rfl | rfl
+  · exact ⟨rfl, rfl, by decide, by intro i hi j hj _; simp [A_b] at hi hj; rw [hi, hj]⟩
+  · exact ⟨rfl, rfl, by decide, by intro i hi; simp [B, Var.plain] at hi⟩
+/-- the fragment is not empty: `P(A_b = a)` and `P(A = a, B = b)` on `B → A` -/
+example : inFragmentB gBA [(A_b, ⟨0, false⟩)] = true := by decide
+example : inFragmentB gBA [(A, ⟨0, false⟩), (B, ⟨1, false⟩)] = true := by decide
+/-- … and the F10 witness is outside it (a starred value) -/
+example : inFragmentB gBA [(B, ⟨1, true⟩), (A, ⟨0, false⟩)] = false := by decide
+
+/-- the semantic hypotheses of `idstar_sound_fragment` are satisfiable: a functional SCM compatible with `B → A` with normalised
+noise and mechanisms bounded by `dom = 2` -/
+def mBA2 : Model where
+  order := [1, 0]
+  noise := [[1/3, 2/3], [1/4, 3/4]]
+  pa := fun v => if v = 0 then [1] else []
+  lat := fun v => if v = 0 then [1] else if v = 1 then [0] else []
+  f := fun v ps us => if v = 1 then us.getD 0 0 % 2 else (ps.getD 0 0 + us.getD 0 0) % 2
+
+example : ∀ v ps us, mBA2.f v ps us < 2 := by
+  intro v ps us
+  simp only [mBA2]
+  split <;> omega
+
+example : mBA2.Normalised := by
+  intro pmf hp
+  simp only [mBA2, List.mem_cons, List.not_mem_nil, or_false] at hp
+  rcases hp with rfl | rfl
+  · refine ⟨?_, by norm_num⟩
+    intro p hp
+    simp only [List.mem_cons, List.not_mem_nil, or_false] at hp
+    rcases hp with rfl | rfl <;> norm_num
+  · refine ⟨?_, by norm_num⟩
+    intro p hp
+    simp only [List.mem_cons, List.not_mem_nil, or_false] at hp
+    rcases hp with rfl | rfl <;> norm_num
+
+example : Compatible mBA2 gBA := by
+  refine ⟨by decide, by decide, ?_, ?_, ?_⟩
+  · intro v p hp
+    by_cases hv : v = 0
+    · subst hv
+      simp only [mBA2, if_true, List.mem_singleton] at hp
+      subst hp
+      decide
+    · simp [mBA2, hv] at hp
+  · intro l₁ v l₂ h p hp
+    by_cases hv : v = 0
+    · subst hv
+      simp only [mBA2, if_true, List.mem_singleton] at hp
+      subst hp
+      have h' : [1, 0] = l₁ ++ 0 :: l₂ := h
+      rcases l₁ with _ | ⟨x, l₁⟩
+      · simp at h'
+      · simp only [List.cons_append, List.cons.injEq] at h'
+        rw [← h'.1]; simp
+    · simp [mBA2, hv] at hp
+  · intro v w hvw hsh
+    obtain ⟨j, hj1, hj2⟩ := hsh
+    exfalso
+    by_cases hv : v = 0
+    · subst hv
+      simp only [mBA2, if_true, List.mem_singleton] at hj1
+      subst hj1
+      by_cases hw : w = 0
+      · exact hvw hw.symm
+      · by_cases hw1 : w = 1 <;> simp [mBA2, hw, hw1] at hj2
+    · by_cases hv1 : v = 1
+      · subst hv1
+        simp only [mBA2] at hj1
+        simp at hj1
+        subst hj1
+        by_cases hw : w = 0
+        · subst hw; simp [mBA2] at hj2
+        · by_cases hw1 : w = 1
+          · exact hvw hw1.symm
+          · simp [mBA2, hw, hw1] at hj2
+      · simp [mBA2, hv, hv1] at hj1
 end Example07
 
 end Y0.Cf
